@@ -234,29 +234,49 @@ Section Eval.
 End Eval.
 
 (* ------------------------------------------------------------------ chains of set operations *)
-(* q0 op1 q1 op2 q2 ... as written, without parentheses *)
-Definition chain := (qry * list (setk * bool * qry))%type.
+(* q0 op1 q1 op2 q2 ... as written, without parentheses; generic in the kind of leaf so that the
+   two readings of a chain can be compared on leaf NUMBERS (Model/SubqClass.v) *)
+Definition gchain (A : Type) := (A * list (setk * bool * A))%type.
+Definition chain := gchain qry.
+Inductive stree (A : Type) := TLeaf (a : A) | TNode (k : setk) (all : bool) (l r : stree A).
+Arguments TLeaf {A} a.
+Arguments TNode {A} k all l r.
 
-(* the standard reading: INTERSECT first, then UNION / EXCEPT from the left *)
-Fixpoint take_intersects (acc : qry) (l : list (setk * bool * qry)) : qry * list (setk * bool * qry) :=
-  match l with
-  | (KIntersect, all, q) :: l' => take_intersects (QSet KIntersect all acc q) l'
-  | _ => (acc, l)
+Fixpoint qry_of_tree (t : stree qry) : qry :=
+  match t with
+  | TLeaf q => q
+  | TNode k all l r => QSet k all (qry_of_tree l) (qry_of_tree r)
   end.
-(* fuel = length of the list; every step consumes at least one element *)
-Fixpoint parse_std_from (fuel : nat) (acc : qry) (l : list (setk * bool * qry)) : qry :=
-  match fuel with
-  | O => acc
-  | S f =>
-      match l with
-      | [] => acc
-      | (KIntersect, all, q) :: l' => parse_std_from f (QSet KIntersect all acc q) l'
-      | (k, all, q) :: l' =>
-          let '(rhs, rest) := take_intersects q l' in
-          parse_std_from f (QSet k all acc rhs) rest
-      end
-  end.
-Definition parse_std (c : chain) : qry :=
-  let '(q0, l) := c in
-  let '(lhs, rest) := take_intersects q0 l in
-  parse_std_from (length rest) lhs rest.
+
+Section Parse.
+  Variable A : Type.
+  (* the standard reading: INTERSECT first, then UNION / EXCEPT from the left *)
+  Fixpoint take_intersects (acc : stree A) (l : list (setk * bool * A)) : stree A * list (setk * bool * A) :=
+    match l with
+    | (KIntersect, all, q) :: l' => take_intersects (TNode KIntersect all acc (TLeaf q)) l'
+    | _ => (acc, l)
+    end.
+  (* fuel = length of the list; every step consumes at least one element *)
+  Fixpoint parse_std_from (fuel : nat) (acc : stree A) (l : list (setk * bool * A)) : stree A :=
+    match fuel with
+    | O => acc
+    | S f =>
+        match l with
+        | [] => acc
+        | (KIntersect, all, q) :: l' => parse_std_from f (TNode KIntersect all acc (TLeaf q)) l'
+        | (k, all, q) :: l' =>
+            let '(rhs, rest) := take_intersects (TLeaf q) l' in
+            parse_std_from f (TNode k all acc rhs) rest
+        end
+    end.
+  Definition parse_std (c : gchain A) : stree A :=
+    let '(q0, l) := c in
+    let '(lhs, rest) := take_intersects (TLeaf q0) l in
+    parse_std_from (length rest) lhs rest.
+End Parse.
+Arguments take_intersects {A}.
+Arguments parse_std_from {A}.
+Arguments parse_std {A}.
+
+(* the query a chain denotes *)
+Definition chain_qry (c : chain) : qry := qry_of_tree (parse_std c).
